@@ -266,18 +266,26 @@ static void printf_cases(vt::Rng& r, int count, bool huge) {
       emit({Seg{"d", "0", (long)L, -7, ""}});
       emit({Seg{"x", "", (long)L, 0x7fffffff, ""}});
       emit({Seg{"s", "", 0, 0, rs(L - 1)}, Seg{"c", "", 0, 'Q', ""}});
+      // embedded NUL bytes: the result keeps its full length
+      emit({Seg{"s", "", 0, 0, rs(L - 2)}, Seg{"c", "", 0, 0, ""}, Seg{"c", "", 0, 'Z', ""}});
+      emit({Seg{"c", "", 0, 0, ""}, Seg{"s", "", 0, 0, rs(L - 1)}});
     }
   }
+  emit({Seg{"c", "", 0, 0, ""}});
+  emit({Seg{"lit", "", 0, 0, "a"}, Seg{"c", "", 0, 0, ""}, Seg{"lit", "", 0, 0, "b"}});
+  emit({Seg{"c", "", 0, 0, ""}, Seg{"c", "", 0, 0, ""}, Seg{"s", "", 0, 0, "xyz"}});
+  emit({Seg{"d", "", 0, 5, ""}, Seg{"c", "", 0, 255, ""}, Seg{"c", "", 0, 0, ""}});
   for (int i = 0; i < count; i++) {
     vector<Seg> segs;
     int nconv = 0;
     for (int k = (int)r.range(1, 5); k > 0; k--) {
-      switch (r.below(nconv < 3 ? 6 : 2)) {
+      switch (r.below(nconv < 3 ? 7 : 2)) {
         case 0: segs.push_back({"lit", "", 0, 0, rs(r.below(r.chance(10) ? 3000 : 12))}); break;
         case 1: segs.push_back({"pct", "", 0, 0, ""}); break;
         case 2: segs.push_back({"s", r.chance(30) ? "-" : "", (long)r.below(r.chance(10) ? 2000 : 12), 0, rs(r.below(r.chance(10) ? 3000 : 10))}); nconv++; break;
         case 3: segs.push_back({"d", r.chance(30) ? "0" : r.chance(20) ? "-" : "", (long)r.below(14), (long)r.range(-2147483647, 2147483647), ""}); nconv++; break;
         case 4: segs.push_back({"x", r.chance(30) ? "0" : "", (long)r.below(12), (long)r.below(2147483647), ""}); nconv++; break;
+        case 5: segs.push_back({"c", "", 0, (long)(r.chance(50) ? 0 : r.below(256)), ""}); nconv++; break;
         default: segs.push_back({"d", "", 0, (long)r.range(-9, 9), ""}); nconv++; break;
       }
     }
